@@ -238,12 +238,23 @@ func runPath(cfg *RunConfig, solver *Solver, prefix []Decision, q *workQueue, st
 		switch r := r.(type) {
 		case pathAbort:
 			st.Aborted[r.reason]++
-			if r.reason == "limit:steps" && cfg.NontermIsViolation {
-				// the entry declares its instruction budget to be the termination obligation
+			if (r.reason == "limit:steps" || r.reason == "limit:decisions") && cfg.NontermIsViolation {
+				// the entry declares its instruction / decision budget to be the termination obligation
+				where := r.detail
+				if r.reason == "limit:decisions" {
+					where = func() (fn string) {
+						defer func() { recover() }()
+						if ex.cur != nil {
+							return ex.cur.fn.String()
+						}
+						return "?"
+					}()
+				}
+				r.detail = where
 				label := "nontermination@" + r.detail
 				st.Obligations++
 				st.AssertLabels[label]++
-				v := &Violation{Label: label, Kind: "nontermination", Detail: fmt.Sprintf("more than %d SSA instructions on one path (still running in %s)", cfg.Lim.MaxSteps, r.detail), Path: ps.traceString()}
+				v := &Violation{Label: label, Kind: "nontermination", Detail: fmt.Sprintf("more than %d SSA instructions / %d decisions on one path (still running in %s)", cfg.Lim.MaxSteps, cfg.Lim.MaxDecisions, r.detail), Path: ps.traceString()}
 				if solver != nil {
 					if res := ps.query(ctx.Bool(true)); res == Sat {
 						v.Inputs, v.Model = ps.model()
